@@ -365,6 +365,33 @@ Proof.
         destruct (lives (c_T c) i), (find_inst (c_T c) i); cbn [orb]; split; lia.
 Qed.
 
+(* Close after the flag is set: agent.Close, its events, the connection *)
+Lemma close_core_budget fc fb c1 : tinv c1 ->
+  let '(c', o) := c_close_core fc fb c1 in
+  tinv c' /\ c_maxA c' = c_maxA c1 /\
+  forall i, count_invokes i o + inv_budget c' i <= inv_budget c1 i /\
+            count_writes i o + wr_budget c' i <= wr_budget c1 i.
+Proof.
+  intros Hinv. unfold c_close_core.
+  destruct (a_step (c_A c1) AClose) as [A' [r evs]].
+  destruct (budget_ext c1 (upd_A c1 (c_A c1)) eq_refl eq_refl eq_refl) as [Hi1 Hb1].
+  pose proof (feed_budget fc fb evs (kind_evk []) (upd_A c1 (c_A c1)) (Hi1 Hinv)) as Hf.
+  destruct (feed _ _ _ _ _) as [c2 o]. destruct Hf as (I2 & F2 & B2).
+  unfold frame in F2. cbn [c_closed c_rto c_maxA c_closeConn c_fb c_now c_connClosed c_next_inst upd_A] in F2.
+  injection F2 as _ _ Hm2 Hcc2 _ _ _ _.
+  cbn [c_closeConn upd_A]. rewrite Hcc2.
+  destruct (c_closeConn c1).
+  + set (c4 := mkClient true _ _ _ true _ _ _ _ _ _).
+    destruct (budget_ext c2 c4 eq_refl eq_refl eq_refl) as [Hi4 Hb4].
+    split; [apply Hi4, I2|]. split; [exact Hm2|]. intros i.
+    destruct (count_app i o [OConnClose]) as [Ha Hb]. rewrite Ha, Hb.
+    assert (Hz : count_invokes i [OConnClose] = 0 /\ count_writes i [OConnClose] = 0) by (split; reflexivity).
+    destruct Hz as [-> ->]. destruct (B2 i), (Hb1 i), (Hb4 i). split; lia.
+  + destruct (budget_ext c2 (upd_A c2 A') eq_refl eq_refl eq_refl) as [Hi4 Hb4].
+    split; [apply Hi4, I2|]. split; [exact Hm2|]. intros i.
+    destruct (B2 i), (Hb1 i), (Hb4 i). split; lia.
+Qed.
+
 (* every operation of a history *)
 Lemma step_budget fc fb tid_of c o : tinv c ->
   let '(c', ob) := c_step fc fb tid_of c o in
@@ -372,9 +399,9 @@ Lemma step_budget fc fb tid_of c o : tinv c ->
   forall i, count_invokes i ob + inv_budget c' i <= inv_budget c i /\
             count_writes i ob + wr_budget c' i <= wr_budget c i.
 Proof.
-  intros Hinv. destruct o as [id raw h|raw|d|now|now|r|s|]; cbn [c_step].
+  intros Hinv. destruct o as [id raw h|raw|d|now|now|r|s| |now|d|fid]; cbn [c_step].
   - (* Start *)
-    unfold c_start. destruct (c_closed c).
+    unfold c_start, c_start_gen. destruct (c_closed c).
     { split; [exact Hinv|]. split; [reflexivity|]. intros i. destruct (no_counts_ret CClientClosed i) as [-> ->]. split; lia. }
     set (t := mkTxn (c_next_inst c) id 0 0 h (c_rto c) raw).
     set (c0 := mkClient _ _ _ _ _ _ _ _ _ _ (c_next_inst c + 1)).
@@ -388,10 +415,10 @@ Proof.
                                    (if i =? c_next_inst c then 1 else 0) + wr_budget c' i <= wr_budget c i).
     { intros c' H1 H2 H3. apply (register_budget c c' t H1 H2 H3); try reflexivity; [exact Hfresh | exact Hinv]. }
     destruct r.
-    2,3,4: (destruct (Hreg (upd_T c0 (c_T c0 ++ [t])) eq_refl eq_refl eq_refl) as [I1 B1];
-            split; [exact I1|]; split; [reflexivity|]; intros i;
+    2,3,4: (destruct (skip_inst_budget c c0 eq_refl eq_refl eq_refl Hinv) as [I0 B0];
+            split; [exact I0|]; split; [reflexivity|]; intros i;
             match goal with |- context [ORet ?rr] => destruct (no_counts_ret rr i) as [-> ->] end;
-            destruct (B1 i); destruct (i =? c_next_inst c); split; lia).
+            destruct (B0 i); split; lia).
     match goal with |- context [conn_write ?cc ?i ?b] =>
       pose proof (conn_write_T cc i b) as [HwT _]; pose proof (conn_write_frame cc i b) as HwF;
       destruct (conn_write cc i b) as [[c3 ok] w] eqn:Ew end.
@@ -420,7 +447,7 @@ Proof.
       match goal with |- context [ORet ?rr] => destruct (no_counts_ret rr i) as [-> ->] end.
       destruct (B5 i). split; lia.
   - (* Indicate *)
-    unfold c_start. destruct (c_closed c).
+    unfold c_start, c_start_gen. destruct (c_closed c).
     { split; [exact Hinv|]. split; [reflexivity|]. intros i. destruct (no_counts_ret CClientClosed i) as [-> ->]. split; lia. }
     destruct (conn_write c 65535 raw) as [[c1 ok] w] eqn:Ew.
     pose proof (conn_write_T c 65535 raw) as [HT _]. pose proof (conn_write_frame c 65535 raw) as HF. rewrite Ew in HT, HF. cbn [fst] in HT, HF.
@@ -464,25 +491,58 @@ Proof.
   - (* Close *)
     unfold c_close. destruct (c_closed c) eqn:Ec.
     { split; [exact Hinv|]. split; [reflexivity|]. intros i. destruct (no_counts_ret CClientClosed i) as [-> ->]. split; lia. }
-    set (c1 := mkClient true _ _ _ _ _ _ _ _ _ _).
-    destruct (a_step _ AClose) as [A' [r evs]].
-    destruct (budget_ext c (upd_A c1 (c_A c1)) eq_refl eq_refl eq_refl) as [Hi1 Hb1].
-    pose proof (feed_budget fc fb evs (kind_evk []) (upd_A c1 (c_A c1)) (Hi1 Hinv)) as Hf.
-    destruct (feed _ _ _ _ _) as [c2 o]. destruct Hf as (I2 & F2 & B2).
-    unfold frame in F2. cbn [c_closed c_rto c_maxA c_closeConn c_fb c_now c_connClosed c_next_inst upd_A c1] in F2.
-    injection F2 as _ _ Hm2 Hcc2 _ _ _ _.
-    cbn [c_closeConn upd_A]. rewrite Hcc2.
-    destruct (c_closeConn c).
-    + set (c4 := mkClient true _ _ _ true _ _ _ _ _ _).
-      destruct (budget_ext c2 c4 eq_refl eq_refl eq_refl) as [Hi4 Hb4].
-      split; [apply Hi4, I2|]. split; [exact Hm2|]. intros i.
-      destruct (count_app i o [OConnClose; ORet CNil]) as [Ha Hb]. rewrite Ha, Hb.
-      assert (Hz : count_invokes i [OConnClose; ORet CNil] = 0 /\ count_writes i [OConnClose; ORet CNil] = 0) by (split; reflexivity).
-      destruct Hz as [-> ->]. destruct (B2 i), (Hb1 i), (Hb4 i). split; lia.
-    + destruct (budget_ext c2 (upd_A c2 A') eq_refl eq_refl eq_refl) as [Hi4 Hb4].
-      split; [apply Hi4, I2|]. split; [exact Hm2|]. intros i.
+    destruct (budget_ext c (set_closed c) eq_refl eq_refl eq_refl) as [Hi1 Hb1].
+    pose proof (close_core_budget fc fb (set_closed c) (Hi1 Hinv)) as Hc.
+    destruct (c_close_core fc fb (set_closed c)) as [c' o]. destruct Hc as (I2 & M2 & B2).
+    split; [exact I2|]. split; [exact M2|]. intros i.
+    destruct (count_app i o [ORet CNil]) as [Ha Hb]. rewrite Ha, Hb.
+    destruct (no_counts_ret CNil i) as [-> ->]. destruct (B2 i), (Hb1 i). split; lia.
+  - (* Close while the events of a tick are in flight *)
+    unfold c_tick_race. set (c0 := mkClient _ _ _ _ _ _ _ now _ _ _).
+    destruct (budget_ext c c0 eq_refl eq_refl eq_refl) as [Hi0 Hb0].
+    cbn [c_closed c0]. destruct (c_closed c).
+    { split; [apply Hi0, Hinv|]. split; [reflexivity|]. intros i. destruct (Hb0 i) as [-> ->].
+      destruct (no_counts_ret CClientClosed i) as [-> ->]. split; lia. }
+    destruct (a_step _ _) as [A' [r evs]].
+    destruct (budget_ext c0 (set_closed (upd_A c0 A')) eq_refl eq_refl eq_refl) as [Hi Hb].
+    pose proof (feed_budget fc fb evs (kind_evk []) (set_closed (upd_A c0 A')) (Hi (Hi0 Hinv))) as Hf.
+    destruct (feed _ _ _ _ _) as [c2 o1]. destruct Hf as (I2 & F2 & B2).
+    assert (Hm2 : c_maxA c2 = c_maxA c) by (unfold frame in F2; injection F2 as _ _ Hm _ _ _ _ _; exact Hm).
+    pose proof (close_core_budget fc fb c2 I2) as Hc.
+    destruct (c_close_core fc fb c2) as [c3 o2]. destruct Hc as (I3 & M3 & B3).
+    split; [exact I3|]. split; [congruence|]. intros i.
+    destruct (count_app i o1 (o2 ++ [ORet CNil])) as [Ha Hb']. rewrite Ha, Hb'.
+    destruct (count_app i o2 [ORet CNil]) as [Ha2 Hb2]. rewrite Ha2, Hb2.
+    destruct (no_counts_ret CNil i) as [-> ->]. destruct (B2 i), (B3 i), (Hb i), (Hb0 i). split; lia.
+  - (* Close while the event of a datagram is in flight *)
+    unfold c_deliver_race. destruct (c_closed c) eqn:Ec.
+    { split; [exact Hinv|]. split; [reflexivity|]. intros i. destruct (no_counts_ret CClientClosed i) as [-> ->]. split; lia. }
+    assert (Hclose : let '(c', ob) := c_close fc fb c in
+              tinv c' /\ c_maxA c' = c_maxA c /\
+              forall i, count_invokes i ob + inv_budget c' i <= inv_budget c i /\ count_writes i ob + wr_budget c' i <= wr_budget c i).
+    { unfold c_close. rewrite Ec.
+      destruct (budget_ext c (set_closed c) eq_refl eq_refl eq_refl) as [Hi1 Hb1].
+      pose proof (close_core_budget fc fb (set_closed c) (Hi1 Hinv)) as Hc.
+      destruct (c_close_core fc fb (set_closed c)) as [c' o]. destruct Hc as (I2 & M2 & B2).
+      split; [exact I2|]. split; [exact M2|]. intros i.
       destruct (count_app i o [ORet CNil]) as [Ha Hb]. rewrite Ha, Hb.
-      destruct (no_counts_ret CNil i) as [-> ->]. destruct (B2 i), (Hb1 i), (Hb4 i). split; lia.
+      destruct (no_counts_ret CNil i) as [-> ->]. destruct (B2 i), (Hb1 i). split; lia. }
+    destruct (decode _) as [m st]. destruct st as [[]| | |]; try exact Hclose.
+    destruct (a_step _ _) as [A' [r evs]].
+    destruct (budget_ext c (set_closed (upd_A c A')) eq_refl eq_refl eq_refl) as [Hi Hb].
+    pose proof (close_core_budget fc fb (set_closed (upd_A c A')) (Hi Hinv)) as Hc.
+    destruct (c_close_core fc fb (set_closed (upd_A c A'))) as [c2 o1]. destruct Hc as (I2 & M2 & B2).
+    pose proof (feed_budget fc fb evs (kind_evk (take 1024 d)) c2 I2) as Hf.
+    destruct (feed _ _ _ _ _) as [c3 o2]. destruct Hf as (I3 & F3 & B3).
+    assert (Hm3 : c_maxA c3 = c_maxA c2) by (unfold frame in F3; injection F3 as _ _ Hm _ _ _ _ _; exact Hm).
+    split; [exact I3|]. split; [cbn [c_maxA set_closed upd_A] in M2; congruence|]. intros i.
+    destruct (count_app i o1 (o2 ++ [ORet CNil])) as [Ha Hb']. rewrite Ha, Hb'.
+    destruct (count_app i o2 [ORet CNil]) as [Ha2 Hb2]. rewrite Ha2, Hb2.
+    destruct (no_counts_ret CNil i) as [-> ->]. destruct (B2 i), (B3 i), (Hb i). split; lia.
+  - (* foreign registration in the agent *)
+    destruct (budget_ext c (c_foreign c fid) eq_refl eq_refl eq_refl) as [Hi Hb].
+    split; [apply Hi, Hinv|]. split; [reflexivity|]. intros i. destruct (Hb i) as [-> ->].
+    unfold count_invokes, count_writes. cbn [filter]. rewrite lenN_nil. split; lia.
 Qed.
 
 (* ------------------------------------------------------------------ over every history *)
@@ -533,4 +593,40 @@ Proof.
   destruct R as [_ R]. destruct (R i) as [R1 R2]. cbn [snd]. unfold inv_budget in R1 at 2. unfold wr_budget in R2 at 2.
   apply find_inst_none in Hl as Hf. rewrite Hl in R1. rewrite Hf in R2.
   replace (c_next_inst c <=? i) with false in * by (symmetry; apply N.leb_gt; exact Hn). cbn [orb] in R1. split; lia.
+Qed.
+
+(* "If Start returns an error the handler is never invoked": unless Start returns nil the instance it
+   would have used is not registered afterwards, so by [finished_instance_is_silent] it is never invoked
+   and never written in any continuation *)
+Theorem start_error_unregistered c id raw h : tinv c ->
+  let '(c', ob) := c_start c id raw (Some h) in
+  In (ORet CNil) ob \/ (lives (c_T c') (c_next_inst c) = false /\ c_next_inst c < c_next_inst c' \/ c' = c).
+Proof.
+  intros (Hid & Hin & Hall).
+  assert (Hnl : lives (c_T c) (c_next_inst c) = false).
+  { destruct (lives (c_T c) (c_next_inst c)) eqn:E; [|reflexivity]. apply lives_iff in E. destruct E as (x & Hx & Hxi).
+    rewrite Forall_forall in Hall. destruct (Hall x Hx) as [Hlt _]. lia. }
+  unfold c_start, c_start_gen. destruct (c_closed c); [right; right; reflexivity|].
+  set (t := mkTxn (c_next_inst c) id 0 0 h (c_rto c) raw).
+  set (c0 := mkClient _ _ _ _ _ _ _ _ _ _ (c_next_inst c + 1)).
+  destruct (T_find id (c_T c0)) as [x|] eqn:Ef.
+  { right. left. cbn [c_T c_next_inst c0]. split; [exact Hnl | lia]. }
+  cbn [c_T c0] in Ef. pose proof (T_find_none _ _ Ef) as Hfresh.
+  destruct (a_step _ _) as [A' [r evs]].
+  destruct r; try (right; left; cbn [c_T c_next_inst c0]; split; [exact Hnl | lia]).
+  match goal with |- context [conn_write ?cc ?i ?b] =>
+    pose proof (conn_write_T cc i b) as [HwT _]; pose proof (conn_write_frame cc i b) as HwF;
+    destruct (conn_write cc i b) as [[c3 ok] w] eqn:Ew end.
+  cbn [fst] in HwT, HwF. cbn [c_T upd_T upd_A c0] in HwT.
+  unfold frame in HwF. cbn [c_closed c_rto c_maxA c_closeConn c_fb c_now c_connClosed c_next_inst upd_T upd_A c0] in HwF.
+  injection HwF as _ _ Hm3 _ _ _ _ Hn3.
+  destruct ok; [left; apply in_or_app; right; left; reflexivity|].
+  match goal with |- context [agent_stop ?cc ?i] =>
+    pose proof (agent_stop_T cc i) as [HsT _]; pose proof (agent_stop_frame cc i) as HsF;
+    destruct (agent_stop cc i) as [c5 sr] end.
+  cbn [fst] in HsT, HsF. cbn [c_T upd_T] in HsT. rewrite HwT in HsT.
+  rewrite (T_remove_fresh id (c_T c) t Hfresh eq_refl) in HsT.
+  unfold frame in HsF. cbn [c_closed c_rto c_maxA c_closeConn c_fb c_now c_connClosed c_next_inst upd_T] in HsF.
+  injection HsF as _ _ _ _ _ _ _ Hn5. rewrite Hn3 in Hn5.
+  right. left. rewrite HsT, Hn5. split; [exact Hnl | lia].
 Qed.
